@@ -30,7 +30,8 @@ const char *killat_name[KA_N] = {"any", "write", "fopen", "locked", "fclose", "r
 
 // at == KA_WRITE: the kill lands inside the nth rewrite (open-truncate .. close) of `file` by `proc`, after
 // frac x (size of the job file before the rewrite) bytes have reached the file
-struct KillSpec { int proc = 0; int at = KA_ANY; int nth = 1; double frac = 0.5; int file = 0; long abs_bytes = -1; /* >= 0: exact byte offset (enumeration) */ };
+struct KillSpec { int proc = 0; int at = KA_ANY; int nth = 1; double frac = 0.5; int file = 0; long abs_bytes = -1; /* >= 0: exact byte offset (enumeration) */
+                  bool sigterm = false; /* deliver SIGTERM instead of SIGKILL: a registered handler runs first (the code as given has none) */ };
 
 enum StartKind { ST_NOW = 0, ST_AFTER_SYNCS, ST_AFTER_END, ST_PHASE2 };
 
@@ -62,6 +63,8 @@ struct Plan : sim::PlanBase {
   uint64_t fault_seed = 0;
   long clock_jump_step = -1;          // at this simulated step every clock jumps by clock_jump
   long clock_jump = 0;
+  int tick_ms = 50;                   // simulated time per decision point (1, 5 or 50 ms): how many synchronisations fit into one second
+  bool bare_results = false;          // some jobs return COMPLETE without <output> / FAILED without <error> (same file size as ASSIGNED)
   long alloc_stride = 0;              // > 0: every alloc_stride-th C++ allocation inside the xtp code is a decision point
   int enum_full_below = 160;          // enumeration: rewrites of at most this many bytes are cut at EVERY byte offset
   bool enumerate = false;             // thorough: enumerate a kill at every crash point along this plan's schedule
@@ -170,9 +173,20 @@ struct World : simio::Env {
   }
   long clock(int sproc) override {
     int proc = sproc - 1;
-    long t = clock_base + sim::now_step() / 20 + (proc >= 0 ? plan->procs[proc].skew : 0);
+    long t = clock_base + (long)(sim::now_ns() / 1000000000LL) + (proc >= 0 ? plan->procs[proc].skew : 0);
     if (plan->clock_jump_step >= 0 && sim::now_step() >= plan->clock_jump_step) { t += plan->clock_jump; counters["fault.clock_jump"] = 1; }
     return t;
+  }
+  // the code under test ended its own process (exit, abort, a signal re-raised with the default action)
+  void process_exit(int sproc, int code, const char *how) override {
+    int q = sproc - 1;
+    if (q < 0) return;
+    note("p" + std::to_string(q) + " " + how + " code " + std::to_string(code));
+    if (ps[q].killed) return;  // e.g. a SIGTERM handler that re-raises: the injected fault takes effect now
+    ps[q].abort_what = std::string(how) + " with code " + std::to_string(code);
+    ps[q].dead = true;
+    // I4: only an injected kill that damaged the job file justifies giving up
+    if (torn_by < 0 && code != 0) sim::abort_run("process-aborted", "p" + std::to_string(q) + " ended itself (" + ps[q].abort_what + ") although no injected kill had damaged the job file");
   }
   void note(const std::string &s) {
     if (hist.a.size() < 400) hist.push(s);
@@ -487,6 +501,9 @@ class StubCalc : public xtp::ParallelXJobCalc<std::vector<xtp::Job>> {
       rr.status = "FAILED"; rr.error = "error_of_execution_" + r.token; rr.has_error = true;
       if (w.plan->fail_with_output) { res.setOutput("result_of_execution_" + r.token); rr.output = "result_of_execution_" + r.token; rr.has_output = true; }
       w.counters["fault.job_failure"]++;
+    } else if (w.plan->bare_results && ((h >> 33) % 3) == 0) {
+      res.setStatus(xtp::Job::COMPLETE);   // a calculator may report success without any output
+      rr.status = "COMPLETE";
     } else {
       res.setStatus(xtp::Job::COMPLETE);
       res.setOutput("result_of_execution_" + r.token);
@@ -630,6 +647,8 @@ struct Jobs {
     p.fail_with_output = r.chance(0.5);
     p.eval_max = (int)r.below(5);
     p.fault_seed = r.next() >> 1;
+    { int ticks[4] = {50, 50, 5, 1}; p.tick_ms = ticks[r.below(4)]; }
+    p.bare_results = r.chance(0.3);
     if (faulty) {
       int nk = r.chance(0.75) ? 1 : 2;
       if (r.chance(0.1)) nk = 0;
@@ -642,6 +661,7 @@ struct Jobs {
         double fr[6] = {0.0, 0.02, 0.5, 0.9, 0.98, 1.0};
         k.frac = r.chance(0.4) ? fr[r.below(6)] : r.unit() * 1.15;
         k.file = r.chance(0.6) ? 0 : 1;
+        k.sigterm = k.at != KA_WRITE && r.chance(0.3);
         p.kills.push_back(k);
       }
       p.short_write = r.chance(0.5) ? 0 : (r.chance(0.5) ? 0.1 : 0.4);
@@ -750,12 +770,12 @@ struct Jobs {
     js::Value ks = js::Value::arr();
     for (auto &k : p.kills) {
       js::Value o = js::Value::obj();
-      o.set("proc", k.proc).set("at", k.at).set("at_name", killat_name[k.at]).set("nth", k.nth).set("frac", k.frac).set("file", k.file).set("abs_bytes", k.abs_bytes);
+      o.set("proc", k.proc).set("at", k.at).set("at_name", killat_name[k.at]).set("nth", k.nth).set("frac", k.frac).set("file", k.file).set("abs_bytes", k.abs_bytes).set("sigterm", k.sigterm);
       ks.push(o);
     }
     v.set("kills", ks);
     v.set("short_write", p.short_write).set("short_read", p.short_read).set("fail_rate", p.fail_rate).set("fail_with_output", p.fail_with_output)
-     .set("eval_max", p.eval_max).set("fault_seed", (long long)p.fault_seed).set("clock_jump_step", p.clock_jump_step).set("clock_jump", p.clock_jump).set("enumerate", p.enumerate).set("enum_full_below", p.enum_full_below).set("alloc_stride", p.alloc_stride);
+     .set("eval_max", p.eval_max).set("fault_seed", (long long)p.fault_seed).set("clock_jump_step", p.clock_jump_step).set("clock_jump", p.clock_jump).set("enumerate", p.enumerate).set("enum_full_below", p.enum_full_below).set("tick_ms", p.tick_ms).set("bare_results", p.bare_results).set("alloc_stride", p.alloc_stride);
     return v;
   }
   static Plan from_json(const js::Value &v) {
@@ -773,7 +793,7 @@ struct Jobs {
     }
     for (auto &o : v.at("kills").a) {
       KillSpec k;
-      k.proc = (int)o.num("proc", 0); k.at = (int)o.num("at", 0); k.nth = (int)o.num("nth", 1); k.frac = o.at("frac").d; k.file = (int)o.num("file", 0); k.abs_bytes = (long)o.num("abs_bytes", -1);
+      k.proc = (int)o.num("proc", 0); k.at = (int)o.num("at", 0); k.nth = (int)o.num("nth", 1); k.frac = o.at("frac").d; k.file = (int)o.num("file", 0); k.abs_bytes = (long)o.num("abs_bytes", -1); k.sigterm = o.has("sigterm") && o.at("sigterm").b;
       p.kills.push_back(k);
     }
     p.short_write = v.at("short_write").d; p.short_read = v.at("short_read").d; p.fail_rate = v.at("fail_rate").d; p.fail_with_output = v.at("fail_with_output").b;
@@ -782,6 +802,8 @@ struct Jobs {
     p.enumerate = v.has("enumerate") && v.at("enumerate").b;
     p.alloc_stride = (long)v.num("alloc_stride", 0);
     p.enum_full_below = (int)v.num("enum_full_below", 160);
+    p.tick_ms = (int)v.num("tick_ms", 50);
+    p.bare_results = v.has("bare_results") && v.at("bare_results").b;
     return p;
   }
 
@@ -819,6 +841,8 @@ struct Jobs {
     if (p.fail_rate > 0) { Plan q = p; q.fail_rate = 0; out.push_back(q); }
     if (p.clock_jump_step >= 0) { Plan q = p; q.clock_jump_step = -1; out.push_back(q); }
     if (p.eval_max > 0) { Plan q = p; q.eval_max = 0; out.push_back(q); }
+    if (p.bare_results) { Plan q = p; q.bare_results = false; out.push_back(q); }
+    if (p.tick_ms != 50) { Plan q = p; q.tick_ms = 50; out.push_back(q); }
     if (p.alloc_stride > 0) { Plan q = p; q.alloc_stride = 0; out.push_back(q); q = p; q.alloc_stride = p.alloc_stride * 4; out.push_back(q); }
     bool hist = false;
     for (int s : p.init_status) if (s) hist = true;
@@ -899,6 +923,7 @@ struct Jobs {
     spec.apply(cfg, plan);
     cfg.budget = 400000;
     cfg.pct_span = 600;
+    cfg.tick_ns = (long long)plan.tick_ms * 1000000LL;
     std::vector<uint64_t> states;
     std::streambuf *old_out = std::cout.rdbuf();
     struct NullBuf : std::streambuf { int overflow(int c) override { return c; } std::streamsize xsputn(const char *, std::streamsize n) override { return n; } } nb;
@@ -941,6 +966,16 @@ struct Jobs {
         auto hit = [&](int at) {
           w.kill_count[at][q]++;
           if (w.kill_due(q, at)) {
+            bool term = false;
+            for (auto &k : w.plan->kills) if (k.proc == q && k.at == at && k.sigterm) term = true;
+            if (term) w.ps[q].killed = true;   // whatever the handler does, the termination was injected
+            if (term && simio::deliver_signal(sp, 15)) {
+              w.ps[q].killed = false;   // a handler ran and returned: the process lives on
+              w.counters["fault.sigterm_handled"]++;
+              w.note("SIGTERM handled by p" + std::to_string(q));
+              return;
+            }
+            if (term) w.counters["fault.sigterm_default_action"]++;
             w.ps[q].killed = true;
             w.counters["fault.kill"]++;
             w.counters[std::string("fault.kill_at_") + killat_name[at]]++;
@@ -1099,7 +1134,7 @@ struct Jobs {
     rep.deviations = res.deviations;
     rep.trace = res.trace;
     rep.diverged = res.outcome == sim::RUN_DIVERGED;
-    rep.sim_time = res.steps / 20;
+    rep.sim_time = (long)(res.steps * (long long)plan.tick_ms / 1000);
     std::sort(states.begin(), states.end());
     states.erase(std::unique(states.begin(), states.end()), states.end());
     rep.states = states;
